@@ -119,6 +119,16 @@ class C15(Engine):
                         code[0:4] = w32.to_bytes(4, "big" if big else "little")
                 else:
                     code[0] = first
+            enc = progs.corpus().get(cpu)
+            if enc and rng.chance(1, 4):
+                # a real instruction (encodings of the pinned test corpus: system/CSR, block move, long forms that seeded bytes
+                # hardly ever form), as assembled or with one operand bit or byte changed
+                b = bytearray(bytes.fromhex(rng.pick(enc)[1]))
+                if b:
+                    if rng.chance(1, 3):
+                        at = rng.below(len(b))
+                        b[at] = b[at] ^ (1 << rng.below(8)) if rng.chance(1, 2) else rng.pick([0x00, 0xff, 0x80, 0x7f])
+                    code[0:len(b)] = b
             wins = [[base, bytes(code).hex()]]
             if rng.chance(1, 2):
                 wins.append([rng.pick([0, top - 8, top - 2, 0x7ffe, 0xfffe, 0x1fe]) & 0xffffffff, rng.bytes(8).hex()])
